@@ -21,6 +21,8 @@ KINDS = {
     "FM": ("QFormLayout", "layout"), "SP": ("QSpacerItem", "spacer"), "AC": ("QAction", "action"),
     "SEP": ("QAction", "sep"), "MN": ("QMenu", "menu"), "TW": ("QTabWidget", "widget"),
     "VO": ("VObj", "widget"), "VS": ("VSub", "widget"), "MB": ("QMenuBar", "widget"),
+    # classes that merely derive from the specially treated ones (fixtures/vtypes.json)
+    "VM": ("VMenu", "menu"), "VA": ("VAction", "action"), "VT": ("VTabs", "widget"), "VX": ("VBox", "layout"),
 }
 WIDGETISH = ("widget", "menu")
 
@@ -133,7 +135,7 @@ def first_difference(a, b, path="root"):
 
 # --------------------------------------------------------------------------- enumeration
 
-FULL = ["W", "LB", "VB", "HB", "GR", "FM", "SP", "AC", "SEP", "MN", "TW", "VO"]
+FULL = ["W", "LB", "VB", "HB", "GR", "FM", "SP", "AC", "SEP", "MN", "TW", "VO", "VM", "VA", "VT", "VX"]
 SMALL = ["W", "VB", "AC", "MN", "SP"]
 MID = ["W", "VB", "GR", "AC", "SEP", "MN", "SP"]
 
@@ -166,8 +168,26 @@ def shapes_depth4(root_kinds, kinds):
                     yield (root, [(a, [(b, [(g, []) for g in gs])])])
 
 
+def shapes_childless():
+    """Objects that must have no children (spacer, action, separator), each in a position where it is
+    itself allowed, with every kind of child: must be rejected, never dropped silently."""
+    for x in FULL:
+        yield ("W", [("VB", [("SP", [(x, [])])])])
+        yield ("W", [("GR", [("LB", []), ("SP", [(x, [])])])])
+        yield ("W", [("AC", [(x, [])])])
+        yield ("W", [("MN", [("AC", [(x, [])]), ("AC", [])])])
+        yield ("W", [("SEP", [(x, [])])])
+        yield ("W", [("VA", [(x, [])])])
+        yield ("MB", [("VM", [("AC", [(x, [])])])])
+
+
 def all_shapes(tier):
     yield from shapes_depth2(FULL, 3)
+    yield from shapes_childless()
+    # menu bars and tool bars with menu-like children (plain and derived)
+    for parent in ("MB", "MN", "VM", "TW", "VT"):
+        for kids in itertools.product(["MN", "VM", "AC", "VA", "SEP", "W"], repeat=2):
+            yield ("W", [(parent, [(k, []) for k in kids])])
     if tier == "quick":
         yield from shapes_depth3(["W"], SMALL, 2)
     else:
